@@ -44,18 +44,25 @@ class GridDriver:
         for name in self.world.cells.columns:
             if name == "pos":
                 continue
-            vals = []
-            for v in self.world.cells[name]:
-                try:
-                    if isinstance(v, (tuple, list)):
-                        # a list-like cell value k, k+1, ... is projected to its first element if it is that progression
-                        vals.append(int(v[0]) if list(v) == [v[0] + j for j in range(len(v))] and len(v) >= 2 else -99998)
-                    else:
-                        vals.append(int(v))
-                except Exception:  # noqa: BLE001
-                    vals.append(-99999)
+            vals = [self.decode(name, i, v) for i, v in enumerate(self.world.cells[name])]
             out.append([str(name), vals])
         return out
+
+    def decode(self, name, i, v):
+        """Project a cell value to the specification's integer.  A value must come back with the Python type it was supplied
+        with: text stays text (sources of kind "mixlist" supply str(n) for odd cells), numbers stay numbers."""
+        try:
+            want_text = getattr(self, "reps", {}).get(name) == "mix" and i % 2 == 1
+            if isinstance(v, str):
+                return int(v) if want_text and v == str(int(v)) else -99997
+            if want_text:
+                return -99996
+            if isinstance(v, (tuple, list)):
+                # a list-like cell value k, k+1, ... is projected to its first element if it is that progression
+                return int(v[0]) if list(v) == [v[0] + j for j in range(len(v))] and len(v) >= 2 else -99998
+            return int(v)
+        except Exception:  # noqa: BLE001
+            return -99999
 
     def op_grid(self, cls, shape, wrap=False):
         W, H, D = shape
@@ -94,7 +101,9 @@ class GridDriver:
             else:
                 row = gc(x, y, z)
             pos = _ints(row["pos"])
-            vals = [[str(k), int(row[k][0]) if isinstance(row[k], (tuple, list)) else int(row[k])] for k in row.index if k != "pos"]
+            table = self.pos_table()
+            idx = table.index(pos) if pos in table else 0
+            vals = [[str(k), self.decode(k, idx, row[k])] for k in row.index if k != "pos"]
         except Exception as e:  # noqa: BLE001
             exc = e
         self.events.append({"op": "get_cell", "c": list(c), "out": outcome(exc), "pos": pos, "vals": vals})
@@ -162,6 +171,16 @@ class GridDriver:
             vals = [7 * (i + 1) + k for i in range(n)]
             gen = list(vals)
             self.sources[name] = gen
+        elif kind == "mixlist":
+            # numbers and text in one supplied list: every element must be stored as it is
+            vals = [7 * (i + 1) + k for i in range(n)]
+            gen = [v if i % 2 == 0 else str(v) for i, v in enumerate(vals)]
+            self.sources[name] = gen
+        elif kind == "tuplist":
+            # a supplied list of equal-length tuples (one coordinate pair per cell)
+            vals = [7 * (i + 1) + k for i in range(n)]
+            gen = [(v, v + 1) for v in vals]
+            self.sources[name] = gen
         elif kind == "array":
             vals = [7 * (i + 1) + k for i in range(n)]
             gen = np.array(vals)
@@ -196,7 +215,10 @@ class GridDriver:
             (w.addCellComponent if ALIAS[0] else w.add_cell_component)(name, gen)
         except Exception as e:  # noqa: BLE001
             exc = e
-        self.events.append({"op": "add_cell_component", "name": name, "kind": {"roarray": "array", "tconst": "constant"}.get(kind, kind), "k": k, "vals": vals, "dims": self.dims,
+        if exc is None:
+            self.reps = getattr(self, "reps", {})
+            self.reps[name] = "mix" if kind == "mixlist" else None
+        self.events.append({"op": "add_cell_component", "name": name, "kind": {"roarray": "array", "tconst": "constant", "mixlist": "list", "tuplist": "list"}.get(kind, kind), "k": k, "vals": vals, "dims": self.dims,
                             "out": outcome(exc), "cols": self.cols()})
 
     def op_mutate(self, name):
@@ -292,7 +314,7 @@ def c11_random_program(rng, max_ext=3, length=10):
     for _ in range(length):
         r = rng.random()
         if r < 0.55:
-            prog.append(["add", rng.choice(names), rng.choice(["callable", "constant", "tconst", "list", "array", "roarray", "lookup", "lookup", "halve", "halve"]), rng.choice([0, 3, 5, -4])])
+            prog.append(["add", rng.choice(names), rng.choice(["callable", "constant", "tconst", "list", "mixlist", "tuplist", "array", "roarray", "lookup", "lookup", "halve", "halve"]), rng.choice([0, 3, 5, -4])])
         elif r < 0.7:
             prog.append(["mutate", rng.choice(names)])
         elif r < 0.9:
